@@ -143,13 +143,35 @@ package stateful
 // values): it returns a value or an error -- it does not panic. No functional contract here: the
 // obligations are the ones the code itself raises (index and slice bounds, nil dereference,
 // failed type assertion, integer division, conversions, explicit panic).
+// Arguments are what callFunction passes: results of the typed Eval* methods boxed into
+// interfaces, so never an untyped nil.
 //@ sweep ^\(\*?\w+\)\.Call$
 //@   props C04 C05
+//@   requires forall i int :: 0 <= i && i < len(args) ==> args[i] != nil
 
 // ---------------------------------------------------------------- eval_function_node.go (C04, C05)
 
 // A function-call node, for any number of (non-nil) argument evaluators and any scope: typing it
 // and evaluating it return a value or an error, never a panic.
-//@ sweep ^\(\*EvalFunctionNode\)\.(Type|callFunction|Eval\w+)$
+// Assumed: looking a function up, reading its signature and typing an operand leave the node
+// being typed alone (an evaluator tree is a tree).
+//@ func lookupFunc
+//@   trusted
+//@   modifies nothing
+//@ func (Func).Signature
+//@   trusted
+//@   modifies nothing
+//@ func (NodeEvaluator).Type
+//@   trusted
+//@   modifies nothing
+//@ func (*EvalFunctionNode).Type
+//@   props C04 C05
+//@   requires scope != nil
+//@   requires forall i int :: 0 <= i && i < len(n.argsEvaluators) ==> n.argsEvaluators[i] != nil
+//@   loop 1
+//@     invariant forall i int :: 0 <= i && i < len(n.argsEvaluators) ==> n.argsEvaluators[i] != nil
+//@   loop 2
+//@     invariant forall i int :: 0 <= i && i < len(n.argsEvaluators) ==> n.argsEvaluators[i] != nil
+//@ sweep ^\(\*EvalFunctionNode\)\.(callFunction|Eval\w+)$
 //@   props C04 C05
 //@   requires forall i int :: 0 <= i && i < len(n.argsEvaluators) ==> n.argsEvaluators[i] != nil
